@@ -88,6 +88,13 @@ docstrings equal the initial values of the class fields (finite table, kernel-ev
 theorem defaults_documented :
     ∀ e ∈ docDefaults, initialStore classes e.1 e.2.1 = e.2.2 := by decide +kernel
 
+/-- Constructor defaults are the documented ones: for every entry of the (hand-written) documented table the
+generated class declares that parameter with exactly that default, so `with C():` means the documented value
+inside the block whatever the enclosing blocks set (per-dtype settings excepted: there `None` = keep). -/
+theorem ctor_defaults_documented :
+    ∀ e ∈ documentedCtorDefaults, ∃ d ∈ classes, d.id = e.1 ∧ (e.2.1, some e.2.2) ∈ d.params := by
+  decide +kernel
+
 /-- linear_operator's `cholesky_jitter` (outside /repo): restoration holds only when none of its three
 fields is `None` before the block.  Full statement `Restores c_cholesky_jitter` is FALSE
 (`cholesky_jitter_not_restores`). -/
